@@ -253,6 +253,10 @@ func lenSteps(x *Exec) int {
 func (e *Explorer) verdicts(x *Exec, prefix []int) {
 	var vs []Violation
 	for _, p := range x.Out.Panics {
+		if harnessPanic(p) {
+			e.Stats.Internal = append(e.Stats.Internal, fmt.Sprintf("%s %v: harness panic: %s", e.Case, prefix, firstLines(p, 8)))
+			continue
+		}
 		vs = append(vs, Violation{Oracle: "panic", Msg: firstLines(p, 12)})
 	}
 	vs = append(vs, x.Viol...)
@@ -301,6 +305,29 @@ func (e *Explorer) verdicts(x *Exec, prefix []int) {
 			e.Stats.Unreproduced = append(e.Stats.Unreproduced, fv)
 		}
 	}
+}
+
+// harnessPanic tells whether a recorded panic was raised by harness code itself (the first
+// frame below the runtime's panic machinery is a zz_verif file): that is a bug of the
+// machinery, reported as an internal error, never as a property violation.
+func harnessPanic(p string) bool {
+	lines := strings.Split(p, "\n")
+	seenPanic := false
+	for i, l := range lines {
+		if strings.HasPrefix(l, "panic(") {
+			seenPanic = true
+			continue
+		}
+		if !seenPanic || !strings.HasPrefix(l, "\t") {
+			continue
+		}
+		if strings.Contains(l, "/runtime/") {
+			continue
+		}
+		_ = i
+		return strings.Contains(l, "zz_verif_") || strings.Contains(l, "/internal/v")
+	}
+	return false
 }
 
 func firstLines(s string, n int) string {
